@@ -54,8 +54,14 @@ def main():
                       " ".join(f"{p}:exit{c['exit']}" + (f"[{c['classes'][0]}]" if c["classes"] else "") for p, c in row["checks"].items()), flush=True)
             finally:
                 sh(["git", "-C", REPO, "worktree", "remove", "--force", f"{tmp}/repo"])
-        if not only:
-            json.dump({"results": rows}, open(f"{VERIF}/benign/RESULTS.json", "w"), indent=1)
+        path = f"{VERIF}/benign/RESULTS.json"
+        if not only or not os.path.exists(path):
+            json.dump({"results": rows}, open(path, "w"), indent=1)
+        else:
+            old = json.load(open(path))
+            fresh = {r["benign"]: r for r in rows}
+            old["results"] = [fresh.pop(r["benign"], r) for r in old["results"]] + list(fresh.values())
+            json.dump(old, open(path, "w"), indent=1)
         print(f"benign: {len(rows)} behaviour-preserving changes x 4 checks, alarms: {alarms}")
         return 1 if alarms else 0
     finally:
